@@ -44,8 +44,19 @@ func zzH08e() {
 		return
 	}
 	zzAssert(ret == nil, "reports-success")
-	if term && len(conn.writes) >= 1 {
-		lw := conn.writes[len(conn.writes)-1]
-		zzAssert(zzAnd(lw.dst == netip.IPv6LinkLocalAllNodes(), zzOr(len(conn.writes) == 1, lw.ra.RouterLifetime == 0)), "last-packet-is-the-final-ra")
+	if term {
+		// the advertiser was running (its initial RA went out before the race
+		// began), so terminating means a final RA after it
+		zzAssert(len(conn.writes) >= 2, "final-ra-sent-on-termination")
+		if len(conn.writes) >= 2 {
+			lw := conn.writes[len(conn.writes)-1]
+			zzAssert(zzAnd(lw.dst == netip.IPv6LinkLocalAllNodes(), lw.ra.RouterLifetime == 0), "last-packet-is-the-final-ra")
+		}
+	} else {
+		for i, w := range conn.writes {
+			if i > 0 {
+				zzAssert(!w.dst.IsMulticast(), "no-final-ra-on-reload")
+			}
+		}
 	}
 }
